@@ -1366,6 +1366,12 @@ class Data(BaseCartesianData):
         except ValueError:
             pass
 
+        # Components that are derived from the old component ID, or which are
+        # themselves assigned to it, need to refer to the new one from now on.
+        if changed:
+            for link in self.links:
+                link.replace_ids(old, new)
+
         if changed and self.hub is not None:
 
             # remove old component and broadcast the change
